@@ -1839,6 +1839,27 @@ def additive_leaves(e):
     return [e]
 
 
+def signed_leaves(e, sign=1):
+    """[(sign, leaf)] of a tree of (checked) additions and subtractions; None when another operator is involved.
+    With it `cap - len >= min`, `cap >= min + len` and `let free = cap - len; free >= min` are the same sum."""
+    e = strip(e)
+    while e[0] == 'cast':
+        e = strip(e[2] if len(e) > 2 and isinstance(e[2], tuple) else e[1])
+    if e[0] == 'field' and e[3] == '0' and strip(e[1])[0] == 'bin' and strip(e[1])[1] in ('AddWithOverflow', 'SubWithOverflow'):
+        e = strip(e[1])
+    if e[0] == 'bin':
+        if e[1] in ('Add', 'AddWithOverflow', 'AddUnchecked'):
+            a, b = signed_leaves(e[2], sign), signed_leaves(e[3], sign)
+        elif e[1] in ('Sub', 'SubWithOverflow', 'SubUnchecked'):
+            a, b = signed_leaves(e[2], sign), signed_leaves(e[3], -sign)
+        else:
+            return None
+        if a is None or b is None:
+            return None
+        return a + b
+    return [(sign, e)]
+
+
 def order_constraint(facts, fn, site, const, value=None):
     """orderings of (value vs `const`) that hold on every path to block `site`: intersection over the
     comparison edges against that constant which dominate the site -- `match v { K => .., _ => .. }` counts as the
